@@ -231,6 +231,18 @@ def gen_cases(rng, tier):
             ham['entries'] = ham['entries'][:8]
         cases.append({'kind': 'apply', 'norb': norb, 'mode': 'ns', 'n': na + nb, 'sz': na - nb, 'vec': vec, 'ham': ham,
                       'big': True, 'tile': True})
+    # fixed-column kernels of spin-orbital one-body operators on spin-broken wavefunctions: every column of both spin blocks,
+    # odd and even particle numbers, 3 and 4 orbitals (sectors with different numbers of alpha and beta strings)
+    for norb, nn in ((3, 1), (3, 2), (3, 3), (4, 3)) if tier == 'quick' else ((3, 1), (3, 2), (3, 3), (3, 4), (3, 5), (4, 2), (4, 3), (4, 5)):
+        keys = fqeio.sector_keys(norb, 'sb', nn, 0)
+        for col in range(2 * norb):
+            if tier == 'quick' and norb == 4 and col % 2 == 1:
+                continue
+            ents = [[[row, col], *_rand_c(rng)] for row in range(2 * norb) if rng.random() < 0.8 or row == col]
+            ents = [e for e in ents if e[1] or e[2]] or [[[col, col], 1, 0]]
+            cases.append({'kind': 'apply', 'norb': norb, 'mode': 'sb', 'n': nn, 'sz': 0,
+                          'vec': fqeio.random_state(rng, norb, keys, density=0.9, amp=2),
+                          'ham': {'cls': 'gso', 'rank': 1, 'entries': ents, 'e0': [0, 0], 'real': False}})
     # low filling with two electrons of one spin (needs >= 7 orbitals: n_sigma < 0.3 norb): the same-spin blocks of the
     # low-filling kernels (reference path); complex Hermitian and non-Hermitian tensors, sparse states
     for _ in range(6 if tier == 'quick' else 24):
